@@ -105,9 +105,18 @@ class GlobalContext:
             func.trigger_start()
         self.triggers_delay_start = set()
 
-        for dm in self.dms_delay_start:
-            Function.hass.async_create_task(dm.start())
+        # start in definition order (eg, the last function defined gets a shared service name)
+        for dm in sorted(self.dms_delay_start, key=lambda dm: getattr(dm, "seq", 0)):
+            Function.hass.async_create_task(self._start_decorator_manager(dm))
         self.dms_delay_start = set()
+
+    async def _start_decorator_manager(self, dm: FunctionDecoratorManager) -> None:
+        """Start a delayed decorator manager; a failure has already been logged by the manager."""
+        try:
+            await dm.start()
+        except Exception:  # noqa: S110
+            # don't leave an unretrieved exception in the task
+            pass
 
     def stop(self) -> None:
         """Stop all triggers and auto_start."""
